@@ -166,3 +166,13 @@ pub open spec fn fn_emitted_ok(st0: &State, st1: &State, name: String, params: V
           && (st1.func_ty(name@) matches Some(ft) && (ft matches Ty::TFunc { params: ps, ret_ty }
               && *ret_ty == g.ret_ty && ps@.len() == params@.len() && forall|i: int| 0 <= i < ps@.len() ==> #[trigger] ps@[i] == params@[i].1)) })
 }
+
+// ---- fragment lift_constr_get: a field taken out of a struct / variant carries the field's type AS THE LIFTING RE-DECLARED IT ----
+pub uninterp spec fn struct_field_spec(st: &State, type_name: TastIdent, idx: usize) -> Option<Ty>;        // lift::get_struct_field_ty
+pub uninterp spec fn enum_field_spec(st: &State, c: EnumConstructor, idx: usize) -> Option<Ty>;            // lift::get_enum_field_ty
+#[verifier::external_body] pub fn get_struct_field_ty(state: &State, struct_name: &TastIdent, field_index: usize) -> (r: Option<Ty>) ensures r == struct_field_spec(state, *struct_name, field_index) { unimplemented!() }
+#[verifier::external_body] pub fn get_enum_field_ty(state: &State, constructor: &EnumConstructor, field_index: usize) -> (r: Option<Ty>) ensures r == enum_field_spec(state, *constructor, field_index) { unimplemented!() }
+pub open spec fn constr_get_ty_ok(st: &State, c: Constructor, idx: usize, own: Ty, t: Ty) -> bool {
+    let declared = match c { Constructor::Struct(sc) => struct_field_spec(st, sc.type_name, idx), Constructor::Enum(ec) => enum_field_spec(st, ec, idx) };
+    match declared { Some(d) => t == d, None => t == own }
+}
